@@ -54,6 +54,17 @@ def random_classes(ctx, plan):
                     a = m.atoms[rng.randrange(len(m.atoms))]
                     a.mass = 13 if a.sym == "C" else 2
                 yield G._unique_coords(m, rng)
+            elif cls == "M7long":
+                fam = rng.choice(["path", "comb", "ladder", "polymer", "peptide", "caterpillar"])
+                m = G.family(fam, rng.choice([150, 200, 260, 330, 400]))
+                if rng.random() < 0.5:
+                    a = m.atoms[rng.randrange(len(m.atoms))]
+                    a.mass = 13 if a.sym == "C" else 2
+                yield G._unique_coords(m, rng)
+            elif cls == "M9poly":
+                yield G.polycyclic(rng)
+            elif cls == "M9deep":
+                yield G.deep_refinement(rng)
             else:
                 raise ValueError(cls)
 
@@ -143,3 +154,26 @@ def classify_mol(ctx, mol_or_graph, colors=None, edges=None):
     if len({find(v) for v in range(n)}) >= 2:
         ctx.count("cov_multi_component")
     ctx.maxi("max_atoms", n)
+
+
+def case_guard(ctx, case, fn, *args):
+    """Run one case. An exception raised INSIDE the library under monitoring on an in-domain input is an observed failure of the
+    monitored operation (recorded as a violation with the traceback); an exception from the harness itself propagates (-> inconclusive)."""
+    import os
+    import traceback
+    from ..core import MonitorViolation
+    try:
+        return fn(ctx, case, *args)
+    except MonitorViolation as v:
+        ctx.violation(v.monitor, v.witness, case, v.prop)
+    except Exception as e:  # noqa
+        tb = traceback.extract_tb(e.__traceback__)
+        repo = os.path.realpath(ctx.repo) + os.sep
+        innermost = tb[-1].filename if tb else ""
+        lib = [f for f in tb if os.path.realpath(f.filename).startswith(repo)]
+        harness_last = innermost.startswith(os.path.dirname(os.path.dirname(os.path.abspath(__file__))))
+        if not lib or (harness_last and not isinstance(e, (RecursionError,))):
+            raise
+        ctx.violation("driver:library-exception", {"what": f"the monitored operation raised {type(e).__name__} on an in-domain input", "message": str(e)[:300],
+                                                    "frames": [f"{f.name}@{os.path.basename(f.filename)}:{f.lineno}" for f in tb[-8:]]}, case)
+    return None
